@@ -417,6 +417,6 @@ META = dict(
         "StepMania key tables are extracted as finite maps and must be mutually inverse, and SMMap.write sizes its "
         "rows by the same table; converters into StepMania set the file offset to the source's first tempo point "
         "(the literal 0 is accepted only for BMS and O2Jam, after re-deriving from their readers that the first "
-        "tempo point is pinned at 0).  The per-format and per-converter content rules are C01-C08's."),
+        "tempo point is pinned at 0).  The per-format and per-converter content rules are C01-C08's. The key count is derived per chart, not once for the set (R2)."),
     not_decided="numeric agreement of the written timeline (C01-C08, C10 residues), key counts the target format cannot express",
 )
